@@ -42,6 +42,11 @@ class _Run:
         W.activate(self.world)
         self.box = loops.make_loop(self.kind, self.world)
         self.loop = self.box.loop
+        self.decoy = None
+        if scen["config"].get("decoy") and "make_decoy" in self.box.extra:
+            # another urwid loop object that shares the asyncio loop / IOLoop / reactor, constructed later, never run
+            self.decoy = self.box.extra["make_decoy"]()
+            res.probe("second_loop_object_on_the_same_backend")
         self.log = self.world.log
         self.alarms: dict[int, dict] = {}
         self.watches: dict[int, dict] = {}
@@ -619,6 +624,8 @@ class LoopsEngine(Engine):
         cfg = {"loop": kind, "tiebreak": [rng.randrange(4) for _ in range(8)], "t_end": t_end}
         if kind == "trio" and rng.random() < 0.3:
             cfg["trio_async"] = True
+        if kind in ("asyncio", "tornado", "twisted") and rng.random() < 0.2:
+            cfg["decoy"] = True
         scen = {"config": cfg, "ops": ops, "arrivals": arrivals, "rets": rets, "read_plans": read_plans}
         if rng.random() < 0.3:
             # run() a second time on the same loop object: new alarms (ids from 100), possibly a new idle
